@@ -97,6 +97,9 @@ pub fn write_replay(path: &str, sc: &Scenario, sched: &Tape, fault: &Tape, rule:
     let _ = std::fs::write(path, serde_json::to_vec(&file).unwrap());
 }
 
+/// Message of the most recent panic anywhere in the process (set by the panic hook).
+pub static LAST_PANIC: std::sync::Mutex<String> = std::sync::Mutex::new(String::new());
+
 pub const EXIT_FATAL_VIOLATION: i32 = 10;
 pub const EXIT_FATAL_INCONCLUSIVE: i32 = 11;
 pub const EXIT_HANG: i32 = 13;
